@@ -68,12 +68,89 @@ theorem sector_only_good {S : Nat} (hS : 0 < S) (objs : List (List Nat)) (evs : 
   obtain ⟨sec, inv⟩ := reachable_inv hS objs evs
   exact inv.gm.g4d s j hj
 
+theorem hasSpace_le {S sectors : Nat} {a : Alloc} {size : Nat} (hS : 0 < S) (h : hasSpace S sectors a size = true)
+    (hcap : total S a ≤ sectors * S) : total S a + size ≤ sectors * S := by
+  unfold hasSpace at h
+  have h' := of_decide_eq_true h
+  unfold total at hcap ⊢
+  have hw : a.wos ≤ sectors := by
+    have : a.wos * S ≤ sectors * S := by omega
+    exact Nat.le_of_mul_le_mul_right this hS
+  have hsub : (sectors - a.wos) * S = sectors * S - a.wos * S := Nat.sub_mul _ _ _
+  have := Nat.mul_le_mul_right S hw
+  omega
+
+theorem step_total {S : Nat} (hS : 0 < S) (objs : List (List Nat)) (s : Sys) (sec : Nat → Nat) (inv : Inv S objs s sec)
+    (e : Ev) : total S (s.step objs e).a =
+      total S s.a + (match e with | .alloc => (objs.getD s.ws.length []).length | _ => 0) := by
+  cases e with
+  | alloc =>
+    have sp := alloc_spec hS s.a (objs.getD s.ws.length []).length
+      (fun id o h => ⟨(inv.ga.a1 id o h).1, (inv.ga.a1 id o h).2.1⟩)
+    simp only [Sys.step, inv.hm]
+    exact sp.2.1
+  | write i n =>
+    cases hi : s.ws[i]? with
+    | none => simp only [Sys.step, hi, Nat.add_zero]
+    | some r =>
+      cases hfl : r.flushed with
+      | true => simp only [Sys.step, hi, hfl, if_true, Nat.add_zero]
+      | false => simp only [Sys.step, hi, hfl, Bool.false_eq_true, if_false, Nat.add_zero]
+  | flush i =>
+    cases hi : s.ws[i]? with
+    | none => simp only [Sys.step, hi, Nat.add_zero]
+    | some r =>
+      by_cases hc : r.flushed = true ∨ r.c ≠ r.data.length
+      · simp only [Sys.step, hi, hc, if_true, Nat.add_zero]
+      · simp only [Sys.step, hi, hc, if_false, Nat.add_zero]
+
+theorem guarded_total {S : Nat} (hS : 0 < S) (objs : List (List Nat)) (sectors : Nat) (evs : List Ev) (s : Sys)
+    (sec : Nat → Nat) (inv : Inv S objs s sec) (hcap : total S s.a ≤ sectors * S)
+    (hg : Sys.guarded objs sectors s evs = true) : total S (evs.foldl (Sys.step objs) s).a ≤ sectors * S := by
+  induction evs generalizing s sec with
+  | nil => exact hcap
+  | cons e es ih =>
+    simp only [List.foldl_cons]
+    simp only [Sys.guarded, Bool.and_eq_true] at hg
+    have ht := step_total hS objs s sec inv e
+    cases e with
+    | alloc =>
+      obtain ⟨sec', inv'⟩ := inv_alloc hS inv
+      have h1 : hasSpace S sectors s.a (objs.getD s.ws.length []).length = true := by
+        have := hg.1; rw [inv.hm] at this; exact this
+      have := hasSpace_le hS h1 hcap
+      exact ih _ sec' inv' (by rw [ht]; exact this) hg.2
+    | write i n => exact ih _ sec (inv_write hS inv i n) (by rw [ht]; exact hcap) hg.2
+    | flush i => exact ih _ sec (inv_flush hS inv i) (by rw [ht]; exact hcap) hg.2
+
+/-- **Capacity.** When every `Put` is preceded by a successful `HasSpace` (as `findBlockWithSpace` does), the
+allocation frontier never passes the end of the block ... -/
+theorem sector_capacity {S : Nat} (hS : 0 < S) (objs : List (List Nat)) (sectors : Nat) (evs : List Ev)
+    (hg : Sys.guarded objs sectors (Sys.init S) evs = true) :
+    total S (Sys.run objs S evs).a ≤ sectors * S :=
+  guarded_total hS objs sectors evs _ _ (inv_init S objs) (by simp [Sys.init, total, Alloc.off]) hg
+
+/-- ... and every `WriteAt` any writer ever issues (whole sectors, shared images included) lies inside the block: a
+writer cannot touch a neighbouring block of the device, for any interleaving and any chunking. -/
+theorem sector_in_block {S : Nat} (hS : 0 < S) (objs : List (List Nat)) (sectors : Nat) (evs : List Ev)
+    (hg : Sys.guarded objs sectors (Sys.init S) evs = true) (e : Nat × Nat)
+    (he : e ∈ (Sys.run objs S evs).m.wlog) : 0 < e.2 ∧ e.1 + e.2 ≤ sectors := by
+  obtain ⟨sec, inv⟩ := reachable_inv hS objs evs
+  have hcap := sector_capacity hS objs sectors evs hg
+  obtain ⟨h1, h2⟩ := inv.gm.glog e he
+  refine ⟨h1, ?_⟩
+  have h3 : (e.1 + e.2) * S < (sectors + 1) * S := by rw [Nat.add_mul sectors, Nat.one_mul]; omega
+  have := Nat.lt_of_mul_lt_mul_right h3
+  omega
+
 /-! Non-vacuity: three objects sharing sectors (sector size 4), interleaved writers, all flushed. -/
 def demoObjs : List (List Nat) := [[1, 2, 3], [4, 5, 6, 7, 8, 9, 10, 11, 12, 13], [14], [15, 16, 17]]
 def demoEvs : List Ev := [.alloc, .alloc, .alloc, .alloc, .write 1 3, .write 0 2, .write 1 7, .write 0 1, .flush 1,
   .write 3 3, .flush 3, .write 2 1, .flush 2, .flush 0]
 example : (Sys.run demoObjs 4 demoEvs).ws.map (fun r => (r.start, r.flushed)) =
     [(0, true), (3, true), (13, true), (14, true)] := by decide
+example : Sys.guarded demoObjs 5 (Sys.init 4) demoEvs = true := by decide
+example : (Sys.run demoObjs 4 demoEvs).m.wlog = [(0, 1), (3, 1), (4, 1), (3, 1), (3, 1), (2, 1), (1, 1), (0, 1)] := by decide
 example : (List.range 18).map (devByte (Sys.run demoObjs 4 demoEvs).m) =
     [1, 2, 3, 4, 5, 6, 7, 8, 9, 10, 11, 12, 13, 14, 15, 16, 17, 0] := by decide
 
